@@ -24,7 +24,7 @@ def generate(rng, tier, seed):
         if rng.random() < 0.4:
             items.append(rng.choice([["complete", 0], ["error", 0, 5]]))
         # the subscription is ended by Subscription::unsubscribe or by dropping a utils::Using guard that owns it
-        threads = [["em"] + items, ["un", rng.choice([["unsub", 0], ["unsub", 0], ["using", 0]]), ["issub", 0]]]
+        threads = [["em"] + items, ["un", rng.choice([["unsub", 0], ["unsub", 0], ["using", 0], ["using-panic", 0]]), ["issub", 0]]]
         if rng.random() < 0.3:
             threads.append(["em2", ["next", 0, 8], ["next", 0, 9]])
         base = seed * 1000 + rng.randrange(1000)
@@ -66,7 +66,7 @@ def judge(cases, runs):
                 continue
             unsub_ret = None
             for pos, r in enumerate(ob["ev"]):
-                if r[3] == "ret" and r[4][0] in ("unsub", "ounsub", "using") and unsub_ret is None:
+                if r[3] == "ret" and r[4][0] in ("unsub", "ounsub", "using", "using-panic") and unsub_ret is None:
                     unsub_ret = pos
             cbs = vplib.callbacks_of(ob, tag)
             if unsub_ret is not None:
